@@ -62,6 +62,37 @@ def check(run):
                         continue
                     if not (float(np.max(np.abs(ev(r, Rs) - expect()))) <= tol(f, g)):
                         run.violation("add-sub-not-pointwise", opname, inp, "(f±g)(Q) = f(Q)±g(Q)", "differs")
+                # out= and in-place forms of + and -
+                Lr = max(La, Lb)
+                for opname, uf, sign in (("np.add(out=)", np.add, +1), ("np.subtract(out=)", np.subtract, -1)):
+                    try:
+                        shp = np.broadcast_shapes(la, lb) + ((Lr + 1) ** 2,)
+                        o = spherical.Modes(np.full(shp, 100.0 - 3.0j), spin_weight=s, ell_min=0, ell_max=Lr)
+                        r = uf(f, g, out=o)
+                        run.gap_case("add-sub-out", (s, La, Lb, la, lb, opname), opname)
+                        want = np.zeros(shp, dtype=complex)
+                        want[..., :(La + 1) ** 2] += f.ndarray
+                        want[..., :(Lb + 1) ** 2] += sign * g.ndarray
+                        want[..., :s * s] = 0
+                        if not np.shares_memory(r, o) or not np.allclose(np.asarray(r.view(np.ndarray)), want, rtol=1e-14, atol=1e-14) or r.spin_weight != s or r.ell_max != Lr:
+                            run.violation("add-sub-out-wrong", opname, {**inp, "out_prefilled": True}, "f±g written into out", f"max diff {float(np.max(np.abs(np.asarray(r.view(np.ndarray)) - want)))}")
+                    except Exception as e:
+                        run.violation("operation-raised", opname, inp, "a Modes result", repr(e))
+                if La >= Lb and la == np.broadcast_shapes(la, lb):
+                    for opname, sign in (("f += g", +1), ("f -= g", -1)):
+                        try:
+                            h = f.copy()
+                            if sign > 0:
+                                h += g
+                            else:
+                                h -= g
+                            want = f.ndarray.copy()
+                            want[..., :(Lb + 1) ** 2] += sign * g.ndarray
+                            run.gap_case("add-sub-out", (s, La, Lb, la, lb, opname), opname)
+                            if h.shape != f.shape or not np.allclose(h.ndarray, want, rtol=1e-14, atol=1e-14) or h.spin_weight != s:
+                                run.violation("add-sub-out-wrong", opname, inp, "f±g in place", "differs")
+                        except Exception as e:
+                            run.violation("operation-raised", opname, inp, "a Modes result", repr(e))
                 # conjugation by every spelling
                 fe_c = np.conj(fe)
                 for cname, op in (("f.conjugate()", lambda: f.conjugate()), ("f.conj()", lambda: f.conj()), ("f.bar", lambda: f.bar), ("np.conjugate(f)", lambda: np.conjugate(f)),
